@@ -10,6 +10,10 @@ func Classify(e *Expr) map[string]bool {
 			return
 		}
 		switch e.K {
+		case KInt:
+			if e.Z > 0 {
+				out["int_literal_with_leading_zeros"] = true
+			}
 		case KLet, KFunc:
 			if inArg != "" {
 				out["binding_in_"+inArg] = true
